@@ -404,6 +404,18 @@ func ruleAggVerbatim(c *Ctx) {
 			continue
 		}
 		sizeV := origin(mk.Len)
+		// make([]byte, len(s)) with s := payload[lo:hi]: the size is hi-lo; a comparison of hi (or of the
+		// declared size hi is computed from) with len(payload) checks it
+		sizeAlt := map[ssa.Value]bool{}
+		if call, isC := stripConv(sizeV).(*ssa.Call); isC && calleeName(&call.Call) == "builtin.len" && len(call.Call.Args) == 1 {
+			if sl, isS := origin(call.Call.Args[0]).(*ssa.Slice); isS && sl.High != nil {
+				sizeAlt[origin(sl.High)] = true
+				if bo, isB := origin(sl.High).(*ssa.BinOp); isB && bo.Op == token.ADD {
+					sizeAlt[origin(bo.X)] = true
+					sizeAlt[origin(bo.Y)] = true
+				}
+			}
+		}
 		checked := false
 		for _, b := range fn.Blocks {
 			ifi, isIf := b.Instrs[len(b.Instrs)-1].(*ssa.If)
@@ -425,7 +437,7 @@ func ruleAggVerbatim(c *Ctx) {
 					if _, isPhi := x.(*ssa.Phi); isPhi {
 						return false // only this iteration's values: do not follow loop-carried dependences
 					}
-					if origin(x) == sizeV || x == sizeV {
+					if origin(x) == sizeV || x == sizeV || sizeAlt[origin(x)] || sizeAlt[x] {
 						usesSize = true
 					}
 					if call, isC := x.(*ssa.Call); isC && calleeName(&call.Call) == "builtin.len" && isPayload(call.Call.Args[0]) {
